@@ -207,7 +207,9 @@ impl<'a> Runner<'a> {
         };
         if self.scn["family"].as_str() == Some("transport") {
             if let Err(e) = self.setup_transport() {
-                self.out.tool_error = Some(format!("transport setup: {e}"));
+                // an honest handshake of the code under test failing is data, not a tool problem
+                self.viol(0, "session_setup", "honest_handshake_failed", "both sides finish".into(), e, "");
+                self.out.calls += 1;
                 return self.out;
             }
         }
@@ -745,11 +747,13 @@ impl<'a> Runner<'a> {
         let backend = self.inst.backend_for(id);
         let log = self.log.clone();
         let seed = self.inst.seed;
+        let lack = args.get("lack").and_then(|l| l.as_str()).filter(|l| *l != "none").map(|l| l.to_string());
         self.out.calls += 1;
         let eres = exp["res"].as_str().ok_or("exp.res")?;
         let r = catch_unwind(AssertUnwindSafe(|| -> Result<HandshakeState, snow::Error> {
             let params: snow::params::NoiseParams = name.parse()?;
-            let resolver = RecResolver::new(backend, id, seed, true, log);
+            let mut resolver = RecResolver::new(backend, id, seed, true, log);
+            resolver.lack = lack;
             let mut b = Builder::with_resolver(params, Box::new(resolver));
             if let Some(k) = s.as_ref() {
                 b = b.local_private_key(k)?;
